@@ -126,7 +126,8 @@ def p32be (v : UInt32) : Bytes :=
 
 /-- `table_b2a_base64` -/
 def b64Table : Bytes :=
-  "ABCDEFGHIJKLMNOPQRSTUVWXYZabcdefghijklmnopqrstuvwxyz0123456789+/".toUTF8.toList
+  -- "ABCDEFGHIJKLMNOPQRSTUVWXYZabcdefghijklmnopqrstuvwxyz0123456789+/"
+  [65, 66, 67, 68, 69, 70, 71, 72, 73, 74, 75, 76, 77, 78, 79, 80, 81, 82, 83, 84, 85, 86, 87, 88, 89, 90, 97, 98, 99, 100, 101, 102, 103, 104, 105, 106, 107, 108, 109, 110, 111, 112, 113, 114, 115, 116, 117, 118, 119, 120, 121, 122, 48, 49, 50, 51, 52, 53, 54, 55, 56, 57, 43, 47]
 
 def b64Char (n : Nat) : UInt8 := b64Table.getD n 0
 
@@ -353,6 +354,24 @@ def RSt.toC2 (s : RSt) : C2Data := ⟨s.output, s.metadata, s.id⟩
 def recover (t : Transform) (http : Http) : R C2Data :=
   (runR http t.rsteps ⟨[], none, none, none⟩).map RSt.toC2
 
+/-! ### vocabulary of the theorems -/
+
+/-- arguments for which prepend/append can be undone: integer lengths are non-negative -/
+def encOk : Enc → Bool
+  | .append (.int n) => decide (0 ≤ n)
+  | .prepend (.int n) => decide (0 ≤ n)
+  | _ => true
+
+/-- a run of encoder steps of `transform` on `data` -/
+def encChain : List Enc → Rand → Bytes → R (Bytes × Rand)
+  | [], r, x => .ok (x, r)
+  | e :: es, r, x => (encStep e r x).bind fun p => encChain es p.2 p.1
+
+/-- a run of decoder steps of `recover` on `data` (head of the list first) -/
+def decChain : List Enc → Bytes → R Bytes
+  | [], v => .ok v
+  | e :: es, v => (decStep e v).bind (decChain es)
+
 /-! ## Reference (specification) side -/
 namespace Ref
 
@@ -449,15 +468,16 @@ def b64dec (url : Bool) (s : Bytes) : Option Bytes :=
     (body.mapM (val url)).bind unsextets
   else none
 
-def nbEnc (base : UInt8) (d : Bytes) : Bytes :=
-  d.flatMap fun c => [base + c / 16, base + c % 16]
+/-- NetBIOS nibble encoding with first letter `base` (97 = 'a', 65 = 'A') -/
+def nbEnc (base : Nat) (d : Bytes) : Bytes :=
+  d.flatMap fun c => [UInt8.ofNat (base + c.toNat / 16), UInt8.ofNat (base + c.toNat % 16)]
 
-def nbDec (base : UInt8) : Bytes → Option Bytes
+def nbDec (base : Nat) : Bytes → Option Bytes
   | [] => some []
   | [_] => none
   | a :: b :: rest =>
-    if base ≤ a ∧ a < base + 16 ∧ base ≤ b ∧ b < base + 16 then
-      (nbDec base rest).map ((a - base) * 16 + (b - base) :: ·)
+    if base ≤ a.toNat ∧ a.toNat < base + 16 ∧ base ≤ b.toNat ∧ b.toNat < base + 16 then
+      (nbDec base rest).map fun r => UInt8.ofNat ((a.toNat - base) * 16 + (b.toNat - base)) :: r
     else none
 
 /-- XOR with a repeating key -/
@@ -498,7 +518,7 @@ def decStep (e : Enc) (d : Bytes) : Option Bytes :=
   | .netbiosu => nbDec 65 d
   | .mask => if 4 ≤ d.length then some (xorKey (d.take 4) (d.drop 4)) else none
 
-/-- undo a statement list (given in program order) -/
+/-- undo statements, head of the list first (callers pass the block's statements reversed) -/
 def decChain : List Enc → Bytes → Option Bytes
   | [], d => some d
   | e :: es, d => (decStep e d).bind (decChain es)
@@ -547,6 +567,44 @@ def decode : Program → Http → C2Data → Option C2Data
   | [], _, acc => some acc
   | .deco _ :: rest, m, acc => decode rest m acc
   | .block b :: rest, m, acc => (decodeBlock b m).bind fun v => decode rest m (setField acc b.field v)
+
+/-! #### valid programs -/
+
+def Deco.place : Deco → Term
+  | .header n _ | .hostheader n _ => .header n
+  | .parameter n _ => .parameter n
+
+/-- header names contain no `:`, parameter names no `=` -/
+def Deco.nameOk : Deco → Bool
+  | .header n _ | .hostheader n _ => !n.contains 58
+  | .parameter n _ => !n.contains 61
+
+def Item.place : Item → Term
+  | .deco d => d.place
+  | .block b => b.term
+
+/-- every location a program writes to, in program order -/
+def places (p : Program) : List Term := p.map Item.place
+
+/-- A valid program: well-formed decoration names, non-negative integer arguments, and no statement after a
+block writes to that block's placement (in particular: pairwise distinct terminations, at most one `print`
+and one `uri-append`). -/
+def valid : Program → Bool
+  | [] => true
+  | .deco d :: rest => d.nameOk && valid rest
+  | .block b :: rest => b.encs.all encOk && !(places rest).contains b.term && valid rest
+
+def usesUri (p : Program) : Bool := (places p).contains .uriAppend
+
+def built (p : Program) (f : Field) : Bool :=
+  p.any fun
+    | .block b => b.field == f
+    | .deco _ => false
+
+/-- what `recover` must return: every built field holds the payload (`None` counts as `b""`), the others are `None` -/
+def normalise (p : Program) (c2 : C2Data) : C2Data :=
+  let pick := fun f => if built p f then some ((c2.get f).getD []) else none
+  ⟨pick .output, pick .metadata, pick .id⟩
 
 end Ref
 end C04
